@@ -608,7 +608,7 @@ func (s *seqRunner) apply(op string) OpResult {
 
 func valWeightCfg(cfg CacheCfg, v int) uint32 {
 	if cfg.MaxWeight > 0 {
-		return valWeight(v)
+		return valWeight(v) << cfg.WeightShift
 	}
 	return 1
 }
